@@ -23,7 +23,7 @@ EXT_FUNCS = {
     "numpy.unique": "fresh_or_tuple", "numpy.lexsort": "fresh", "numpy.argsort": "fresh",
     "numpy.arange": "fresh", "numpy.fromiter": "fresh", "numpy.cumsum": "fresh",
     "numpy.bincount": "fresh", "numpy.flatnonzero": "fresh", "numpy.nonzero": "tuple_fresh",
-    "numpy.isnan": "fresh", "numpy.isnat": "fresh", "numpy.ceil": "fresh", "numpy.floor": "fresh",
+    "numpy.isnan": "fresh", "numpy.isnat": "fresh", "numpy.isfinite": "fresh", "numpy.isinf": "fresh", "numpy.signbit": "fresh", "numpy.ceil": "fresh", "numpy.floor": "fresh",
     "numpy.minimum": "fresh", "numpy.maximum": "fresh", "numpy.logical_not": "fresh",
     "numpy.logical_and": "fresh", "numpy.logical_or": "fresh", "numpy.isin": "fresh",
     "numpy.copy": "fresh", "numpy.append": "fresh", "numpy.insert": "fresh", "numpy.tile": "fresh",
